@@ -148,6 +148,7 @@ func L3TraceeMain(scriptJSON string) {
 	res := make(chan [2]string, 2)
 	run := func(id uint64, f func() ([]byte, bool)) {
 		runtime.LockOSThread()
+		runtime.Gosched() // absorb any pending preemption request and restart the scheduler's run-time clock
 		l3marker(1, id, 0)
 		o, e := f()
 		l3marker(2, id, 0)
